@@ -49,7 +49,7 @@ pub fn rand_placed_lib(rng: &mut Rng, max_cells: usize, with_abstracts: bool) ->
     let n = 1 + rng.usize(max_cells);
     let mut cells: Vec<Ptr<Cell>> = Vec::new();
     let mut names: Vec<String> = Vec::new();
-    let mut deps = Vec::new();
+    let mut deps: Vec<Vec<usize>> = Vec::new();
     for i in 0..n {
         let mut name = format!("{}{}", rng.pick(&["tcell", "Unit", "blk_", "Top"]), i);
         if rng.chance(1, 6) {
@@ -99,6 +99,17 @@ pub fn rand_placed_lib(rng: &mut Rng, max_cells: usize, with_abstracts: bool) ->
         } else {
             cell.layout = Some(lay);
         }
+        // a variant derived from an earlier cell by clone(): the copy's layout holds the SAME instance objects (PtrList::clone copies pointers)
+        if i > 0 && rng.chance(1, 8) {
+            let j = rng.usize(i);
+            let src = cells[j].read().unwrap().layout.clone();
+            if let Some(mut l2) = src {
+                l2.name = name.clone();
+                cell.layout = Some(l2);
+                cell.abs = None;
+                d = deps[j].clone();
+            }
+        }
         names.push(name);
         deps.push(d);
         cells.push(Ptr::new(cell));
@@ -110,8 +121,13 @@ pub fn rand_placed_lib(rng: &mut Rng, max_cells: usize, with_abstracts: bool) ->
         _ => rng.shuffle(&mut order),
     }
     let mut lib = Library::new(format!("tlib{}", rng.below(1000)));
+    // now and then a cell that others instantiate is left out of the library's own list (external primitives, Ptr::new-built units)
+    let instantiated: Vec<usize> = (0..n).filter(|j| deps.iter().any(|d| d.contains(j))).collect();
+    let unlisted = if !instantiated.is_empty() && rng.chance(1, 4) { Some(*rng.pick(&instantiated)) } else { None };
     for i in order {
-        lib.cells.push(cells[i].clone());
+        if Some(i) != unlisted {
+            lib.cells.push(cells[i].clone());
+        }
     }
     GenTet { lib, names, deps }
 }
